@@ -10,12 +10,15 @@ from ..util import (has_call, find_calls, assigned_value, const_str, unparse, kw
                     guards_of, call_tail, control_ancestors, name_bound, bound_names)
 from .. import mutate as M
 
+TECHNIQUE = "static analysis: interval abstract interpretation (open/closed bounds) of the generator's index and scaling arithmetic, structural permutation/swap rules, seed-truthiness scan over the package"
+
 EXPLANATION = ("Effect analysis of coba/random.py (CobaRandom touches only its own three fields, no module state, pure "
                "imports; _randu/_randg/_random are accessed nowhere else; stdlib random is imported nowhere), guard analysis "
                "of the time source, and interval abstract interpretation (symbolic end points with open/closed bits) of "
                "every consumer of the uniform stream: random/randoms in [min,max), randint/randints in [a,b], choice index "
                "in [0,len-1], shuffle index in [i,n-1] with swap-only stores, strict cumulative comparison in weighted "
                "choice, choicew returning seq[i],weights[i] for one i, log argument excluding 0 in gauss.")
+EXPLANATION += ' R5: no seed is tested for truthiness (seed 0 is honoured).'
 
 RND = "coba/random.py"
 PURE_IMPORT_MODULES = {"math", "itertools", "operator", "typing", "time"}
